@@ -844,8 +844,9 @@ impl<R: Clone + 'static + crate::MemoryEstimator> GlobalCache<R> {
     /// assert_eq!(cache.get("key2"), None);
     /// ```
     pub fn clear(&self) {
+        let mut order = self.order.lock();
         self.map.write().clear();
-        self.order.lock().clear();
+        order.clear();
     }
 }
 
